@@ -11,6 +11,8 @@ from x86sym import EBPF_MAP, REGS
 
 QUICK_PAIRS = [(0, 1), (3, 4), (4, 3), (7, 6), (6, 7), (2, 2), (9, 5), (1, 10)]
 ALL_PAIRS = [(d, s) for d in range(10) for s in range(11)]
+# registers with an implicit role in x86 (r0 = rax, r3 = rdx: operands of mul/div): every aliasing pattern dst/src over {r0, r3, other}
+SPECIAL_PAIRS = [(0, 0), (0, 3), (3, 0), (3, 3), (5, 0), (5, 3)]
 IMM_QUICK = [0, 1, -1, 200, 0x7fffffff, -0x80000000]
 IMM_FULL = [0, 1, -1, 2, 31, 32, 33, 63, 64, 127, 128, -128, -129, 255, 256, 0xffff, 0x10000, 0x7fffffff, -0x80000000, -0x7fffffff, 0x12345678]
 OFF_QUICK = [0, -8, 127, 128, -129, 32767]
@@ -44,7 +46,7 @@ def instances(tier):
             for key in (0, 1, 0x7fffffff, 0x80000000, 0xffffffff): out.append((opc, 0, 0, 0, key, 0))
         elif k == 'alu':
             if i['x'] or i['op'] == 'neg':
-                for p in pairs: d, s = fix(p); out.append((opc, d, s if i['x'] else 0, 0, 0, 0))
+                for p in (pairs if full or not i['x'] else pairs + SPECIAL_PAIRS): d, s = fix(p); out.append((opc, d, s if i['x'] else 0, 0, 0, 0))
             else:
                 for p, im in combos(pairs, imms, full): d, s = fix(p); out.append((opc, d, 0, 0, im, 0))
         elif k == 'endian':
